@@ -275,6 +275,32 @@ int main(int argc, char **argv)
                     sc.r->moveJunction(js[k], rp);
                 }
             }
+            else if (cmd == "RMJ")
+            {
+                // the documented client API (junction.h): a junction with exactly two connectors is removed, its two connectors
+                // become one.  One connector is deleted at once (the client knows: it is taken out of the known set), the junction
+                // is queued for deletion (likewise).  Prints "RMJ <junction id> <merged connector id | -1> <deleted connector id | -1>"
+                int j; is >> j;
+                JunctionRef *jr = sc.juncs.at(j);
+                if (!jr || !sc.knownJ.count(jr) || sc.knownJ[jr] != (unsigned) (3000 + j)) { printf("RMJ %d -2 -2 0\n", 3000 + j); }   // no longer live (improvement deleted it)
+                else
+                {
+                    unsigned jid = jr->id();
+                    std::map<const void *, unsigned> before;
+                    for (ConnRefList::iterator i = sc.r->connRefs.begin(); i != sc.r->connRefs.end(); ++i) before[*i] = (*i)->id();
+                    size_t nfollow = jr->m_following_conns.size();
+                    ConnRef *merged = jr->removeJunctionAndMergeConnectors();
+                    long mergedId = merged ? (long) merged->id() : -1, deletedId = -1;
+                    for (ConnRefList::iterator i = sc.r->connRefs.begin(); i != sc.r->connRefs.end(); ++i) before.erase(*i);
+                    for (std::map<const void *, unsigned>::iterator i = before.begin(); i != before.end(); ++i)
+                    {
+                        deletedId = i->second;
+                        sc.knownC.erase(i->first);
+                    }
+                    if (merged) { sc.knownJ.erase(jr); sc.juncs[j] = nullptr; }
+                    printf("RMJ %u %ld %ld %zu\n", jid, mergedId, deletedId, nfollow);
+                }
+            }
             else if (cmd == "TX")
             {
                 std::map<const void *, unsigned> cBefore = sc.knownC, jBefore = sc.knownJ;
